@@ -67,6 +67,9 @@ type overlap struct {
 	selfID   []byte // goroutine id of the scenario goroutine
 	buf      []byte
 	dumps    int
+	// goroutines outside the bubble that scan has learnt to ignore (see scan)
+	seenUntagged map[string]int
+	ignore       map[string]bool
 }
 
 func (o *overlap) label(l string) { // world.mu NOT held
@@ -270,8 +273,33 @@ func lockCaller(frames []byte) bool {
 	return false
 }
 
+// outsideBlocked are the states in which goroutines that do not belong to the
+// bubble (the test's own, glog's flush daemon, gRPC's serializers of the dummy
+// connections, the watchdog) sit; see scan.
+var outsideBlocked = map[string]bool{
+	"chan receive": true, "chan send": true, "select": true, "select (no cases)": true, "IO wait": true, "sleep": true,
+	"sync.Cond.Wait": true, "sync.WaitGroup.Wait": true, "finalizer wait": true, "chan receive (nil chan)": true, "chan send (nil chan)": true,
+	"sync.Mutex.Lock": true, "sync.RWMutex.RLock": true, "sync.RWMutex.Lock": true,
+}
+
+// knownOutside identifies goroutines that cannot belong to a bubble by where
+// they were started (a bubble's goroutines are started by the scenario
+// goroutine, the manager, context or time).
+var knownOutside = [][]byte{
+	[]byte("created by github.com/golang/glog."), []byte("created by google.golang.org/grpc"), []byte("created by os/signal."),
+	[]byte("created by verif/harness/internal/vstat.Watchdog"), []byte("created by testing.(*T).Run"), []byte("created by testing.(*M)."),
+	[]byte("created by runtime."), []byte("\nmain.main()"),
+}
+
 // scan reports how many other goroutines of the bubble are not blocked
 // (active) and how many wait for the manager's mutex (locked).
+//
+// A goroutine of the bubble is listed WITHOUT its "synctest bubble" tag while
+// the runtime has it start or assist a garbage collection (runtime.gcStart and
+// gcAssistAlloc detach the goroutine from its bubble for the duration). Such a
+// goroutine is never blocked in user code, so every untagged goroutine that is
+// not in one of the waits outside goroutines sit in counts as active, unless
+// its stack shows it to be one of the known outside goroutines.
 func (o *overlap) scan() (active, locked int) {
 	for {
 		n := runtime.Stack(o.buf, true)
@@ -284,7 +312,15 @@ func (o *overlap) scan() (active, locked int) {
 	o.dumps++
 	dump := o.buf
 	o.buf = o.buf[:cap(o.buf)]
-	for _, g := range bytes.Split(dump, []byte("\n\n")) {
+	sep := []byte("\n\n")
+	untagged := false
+	for len(dump) > 0 {
+		g := dump
+		if k := bytes.Index(dump, sep); k >= 0 {
+			g, dump = dump[:k], dump[k+2:]
+		} else {
+			dump = nil
+		}
 		if !bytes.HasPrefix(g, bGoroutine) {
 			continue
 		}
@@ -293,26 +329,44 @@ func (o *overlap) scan() (active, locked int) {
 			nl = len(g)
 		}
 		hdr := g[:nl]
-		if !bytes.Contains(hdr, bBubble) {
-			continue
-		}
 		rest := hdr[len(bGoroutine):]
 		sp := bytes.IndexByte(rest, ' ')
-		if sp < 0 {
+		lb, rb := bytes.IndexByte(rest, '['), bytes.LastIndexByte(rest, ']')
+		if sp < 0 || lb < 0 || rb < lb {
 			active++
 			continue
 		}
 		if bytes.Equal(rest[:sp], o.selfID) {
 			continue
 		}
-		lb, rb := bytes.IndexByte(rest, '['), bytes.LastIndexByte(rest, ']')
-		if lb < 0 || rb < lb {
-			active++
-			continue
-		}
 		state := rest[lb+1 : rb]
 		if c := bytes.IndexByte(state, ','); c >= 0 {
 			state = state[:c]
+		}
+		if !bytes.Contains(hdr, bBubble) {
+			if outsideBlocked[string(state)] {
+				continue
+			}
+			known := false
+			for _, k := range knownOutside {
+				if bytes.Contains(g, k) {
+					known = true
+				}
+			}
+			if known || o.ignore[string(rest[:sp])] {
+				continue
+			}
+			// safety valve: a goroutine seen untagged and not blocked in this many
+			// consecutive looks is not one of ours in the middle of a GC assist
+			id := string(rest[:sp])
+			o.seenUntagged[id]++
+			if o.seenUntagged[id] > 20000 {
+				o.ignore[id] = true
+				continue
+			}
+			untagged = true
+			active++
+			continue
 		}
 		switch st := string(state); {
 		case durableStates[st]:
@@ -323,6 +377,9 @@ func (o *overlap) scan() (active, locked int) {
 			// not the manager's (glog's, the trace's): it will move on by itself
 			active++
 		}
+	}
+	if !untagged && len(o.seenUntagged) > 0 {
+		clear(o.seenUntagged)
 	}
 	return active, locked
 }
@@ -453,7 +510,7 @@ func runOverlap(t *testing.T, sc *OScenario) (st *stats, trace []Ev, err error) 
 	o := &overlap{w: w, sc: sc,
 		holdAt: map[string]string{}, holdLeft: map[string]int{}, parked: map[string][]chan struct{}{}, timeout: map[string]time.Duration{},
 		recv: map[string]*recvInfo{}, dial: map[string]time.Time{}, dialing: map[string]bool{}, bo: map[string]*boReplica{}, labels: map[string]bool{},
-		buf: make([]byte, 1<<18)}
+		buf: make([]byte, 1<<18), seenUntagged: map[string]int{}, ignore: map[string]bool{}}
 	w.ov = o
 	restore := manager.VerifSetSubscribeClient(w.subscribeClient)
 	defer restore()
@@ -588,8 +645,15 @@ func (o *overlap) execute() (err error) {
 		// neither be waited for nor left. Same exit as vstat.Watchdog, after the same
 		// confirmation: the picture stays as it is for 5 s of real time (the bubble's
 		// clock is virtual, hence the system call).
+		w.mu.Lock()
+		events := len(w.trace)
+		w.mu.Unlock()
+		calls := o.inflight.Load()
 		for start := realNow(); realNow()-start < 5e9; {
-			if o.inflight.Load() == 0 {
+			w.mu.Lock()
+			moved := len(w.trace) != events
+			w.mu.Unlock()
+			if moved || o.inflight.Load() != calls || len(o.parkedNames()) > 0 {
 				return
 			}
 			if active, locked := o.scan(); active != 0 || locked == 0 {
